@@ -148,4 +148,20 @@ theorem asyncFlush_fl (s : St) (k : Cont) : Fl true s (asyncFlush true s k) k :=
   · have h := asyncFlushGo_fl { s with flushing := true } k
     exact ⟨h.vis, h.stack, h.rdl⟩
 
+/-- With a frame queued, `AsyncFlush` starts (or joins) a write and completes nothing inside the call. -/
+theorem asyncFlush_nopush (s : St) (k : Cont) (hp : s.pending ≠ []) : (asyncFlush true s k).stack = s.stack := by
+  unfold asyncFlush
+  simp only [if_true]
+  split
+  · rfl
+  · unfold asyncFlushGo
+    split
+    · rename_i h; exact absurd h hp
+    · unfold startWrite; split <;> rfl
+
+theorem asyncFlush_submitted (s : St) (k : Cont) : (asyncFlush true s k).submitted = s.submitted := by
+  have := (asyncFlush_fl s k).vis
+  simp only [vis, Prod.mk.injEq] at this
+  exact this.2.1
+
 end Sonic.Model.WsAsync
